@@ -96,7 +96,10 @@ func c14Windows(sess []c14Sess) [][2]int {
 			n := e.W
 			for n > ovBuf-buffered {
 				if buffered == 0 {
-					for n > 0 {
+					// direct write: overlayProcessor.Write stops as soon as the bytes written
+					// reach the length of what is left, and bufio goes round again
+					written := 0
+					for written < n {
 						k := n
 						if k > ovBuf {
 							k = ovBuf
@@ -104,6 +107,7 @@ func c14Windows(sess []c14Sess) [][2]int {
 						emit(pos, pos+k)
 						pos += k
 						n -= k
+						written += k
 					}
 				} else {
 					k := ovBuf - buffered
